@@ -38,7 +38,7 @@ _TAGS = {
     "Packed": {"BaseType", "Packed"}, "Int": {"BaseType", "Int", "int"}, "Char": {"BaseType", "Char", "bytes"}, "Wchar": {"BaseType", "Wchar", "str"},
     "CharArray": {"BaseType", "BaseArray", "CharArray", "bytes"}, "WcharArray": {"BaseType", "BaseArray", "WcharArray", "str"},
     "Array": {"BaseType", "BaseArray", "Array", "list"}, "Pointer": {"BaseType", "Pointer", "int"}, "Structure": {"BaseType", "Structure"},
-    "Enum": {"BaseType", "Enum", "PyEnum", "IntEnum", "int"}, "Flag": {"BaseType", "Flag", "PyEnum", "IntFlag", "int"}, "Void": {"BaseType", "Void"},
+    "Enum": {"BaseType", "Enum", "PyEnum", "IntEnum", "int"}, "Flag": {"BaseType", "Flag", "PyEnum", "IntFlag", "int"}, "Void": {"BaseType", "Void"}, "Custom": {"BaseType"},
 }
 _LIB_CLASSES = ["Array", "BaseType", "Char", "CharArray", "Enum", "Flag", "Int", "Packed", "Pointer", "Structure", "Union", "Void", "Wchar", "WcharArray", "BaseArray",
                 "LEB128", "EnumMetaType", "MetaType", "StructureMetaType", "ArrayMetaType"]
@@ -69,6 +69,8 @@ def kinds() -> dict[str, dict]:
         "dync": {"fam": "CharArray", "size": None, "align": 1, "elem": "ch", "n": None, "host": True},
         "u8[2]": {"fam": "Array", "size": 2, "align": 1, "elem": "u8", "n": 2},
         "c200": {"fam": "CharArray", "size": 200, "align": 1, "elem": "ch", "n": 200},  # a large block
+        "cust16": {"fam": "Custom", "size": 2, "align": 2, "host": True},   # a user-defined fixed-size type: not supported by the generator
+        "ecust": {"fam": "Enum", "size": 2, "align": 2, "enum_of": "cust16"},   # an enum over it: not supported either
         "void": {"fam": "Void", "size": 0, "align": 1, "optional": True},  # occupies nothing: the generated reader may leave it to the default
     }
     for name, base, bits in [("u8:3", "u8", 3), ("u8:5", "u8", 5), ("u16:4", "u16", 4), ("u16:12", "u16", 12), ("u32:12", "u32", 12), ("e16:4", "e16", 4),
@@ -82,13 +84,15 @@ def kinds() -> dict[str, dict]:
 
 
 FIELD_KINDS = ["u8", "u16", "u32", "u64", "i16", "f32", "i24", "ch", "wc", "c5", "w3", "e16", "fl8", "e24", "p32", "p32b", "e16b", "u16[3]", "i24[2]", "e16[2]", "e24[2]", "p32[2]",
-               "f32[2]", "ch[1]", "void", "st", "st[2]", "u8[2][2]", "dyn", "dyn4", "dync", "u8:3", "u8:5", "u16:4", "u16:12", "u32:12", "e16:4", "ch:4", "u16:0", "i24:4", "i24:20", "u32@8", "u8@1"]
+               "f32[2]", "ch[1]", "void", "cust16", "ecust", "st", "st[2]", "u8[2][2]", "dyn", "dyn4", "dync", "u8:3", "u8:5", "u16:4", "u16:12", "u32:12", "e16:4", "ch:4", "u16:0", "i24:4", "i24:20", "u32@8", "u8@1"]
 LONGER = [("u8", "u32", "u16"), ("u8:3", "u8:5", "u8:3"), ("u16:4", "u16:12", "u16:4"), ("u8", "dyn", "u32", "u8"), ("u8:3", "u16:4", "u8:3", "u32"),
           ("c5", "u64", "u8", "e16:4", "u16:4"), ("u8", "i24", "u8", "u64"), ("u8:3", "dyn4", "u8:3", "u32"), ("u8", "dyn", "u8:3", "u8:5", "u16"),
           ("u32@8", "u8", "u16:4"), ("u16", "u8@1", "u32"), ("u8", "dyn", "u32", "u8", "u64"), ("u8", "u16[3]", "u8", "p32"), ("ch:4", "u8:3", "u8"),
           ("u8", "st", "u8", "u32"), ("u8", "e24[2]", "u8", "i24[2]"), ("u8:3", "u8:5", "u8:3", "u8:5", "u16"), ("wc", "u8", "w3", "u32"),
           ("u8", "u8", "u8", "u32", "u8", "u64", "u16"), ("dyn", "i24:4", "i24:4", "u8"), ("dyn", "i24:4", "i24:20", "i24:4", "u8"), ("dyn", "u8:3", "u8:5", "u8:3", "u16"),
-          ("dyn4", "u16:4", "u16:12", "u16:4", "u32"), ("c200",), ("u8", "c200", "u32")]
+          ("dyn4", "u16:4", "u16:12", "u16:4", "u32"), ("c200",), ("u8", "c200", "u32"),
+          ("dyn", "u32", "u8", "u16", "u32"), ("dyn", "u8", "u16", "u8", "u32"), ("dyn", "u8", "u32", "u8", "u64"), ("u8", "dyn", "u16", "u8", "u32", "u8"), ("u16", "u32", "u16"),
+          ("u8", "u16", "u32", "u8"), ("u16:4", "st", "u16:4", "u8"), ("u32", "u8@1", "u8"), ("u8", "ecust", "u8"), ("ecust", "u16")]
 
 
 def base_of(name: str) -> str:
@@ -385,7 +389,7 @@ class Harness:
             if extra:
                 return ("BAD", kname, f"extra constructor arguments {extra!r}"[:60])
             want: tuple = {"Packed": (float,) if table[kname].get("packchar") in ("e", "f", "d") else (int,), "Int": (int,), "Enum": (int,), "Flag": (int,),
-                           "Char": (bytes,), "CharArray": (bytes,), "Wchar": (str,), "WcharArray": (str,), "Array": (list,), "Structure": (), "Void": ()}[fam]
+                           "Char": (bytes,), "CharArray": (bytes,), "Wchar": (str,), "WcharArray": (str,), "Array": (list,), "Structure": (), "Void": (), "Custom": ()}[fam]
             if not isinstance(v, want) or isinstance(v, bool):
                 return ("BAD", kname, f"{type(v).__name__} {v!r}"[:60])
             return (kname, v)
